@@ -120,9 +120,10 @@ class Node(object):
                 node.nsmap = nsmap
             else:
                 for prefix in nsmap:
-                    if prefix not in node.nsmap:
+                    if node.nsmap.get(prefix) != nsmap[prefix]:
+                        # the map may be shared with nodes outside this subtree: never write through it
                         node.nsmap = copy.deepcopy(node.nsmap)
-                    node.nsmap[prefix] = nsmap[prefix]
+                        node.nsmap[prefix] = nsmap[prefix]
 
         for child in node.children:
             if id(child.nsmap) == nsmap_id:
